@@ -5,7 +5,7 @@ use crate::core::{ClockCfg, Installed, SeqHooks};
 use crate::driver::{Check, MinStats, RunOut, Tier};
 use crate::genh::{Profile, gen_history};
 use crate::prng::{Digest, Rng};
-use crate::seq::{History, Outcome, Violation, check_match_against, run_history};
+use crate::seq::{History, Outcome, Violation, check_match_against, run_blind, run_history};
 use crate::spec::*;
 use pricelevel::{MatchResult, Transaction};
 use serde_json::{Value, json};
@@ -34,10 +34,40 @@ pub fn strip_reads(h: &History) -> History {
 
 /// C07 purity: the same history with and without read-only calls must answer identically.
 pub fn twin_violation(h: &History, with: &Outcome) -> Option<Violation> {
-    if !h.ops.iter().any(|o| !o.is_mutating()) {
+    if with.aborted_at.is_some() {
         return None;
     }
-    if with.aborted_at.is_some() {
+    // blind twin: the same mutating calls with nothing at all in between (the observed run reads
+    // the listing, the aggregates and the statistics after every step, so a read path with a
+    // side effect would otherwise act on both twins alike)
+    if let Some((resp, fin)) = run_blind(h, &with.resp_ops) {
+        if let Some(i) = (0..resp.len()).find(|&i| with.responses.get(i) != Some(&resp[i])) {
+            return Some(Violation {
+                prop: "C07".into(),
+                sig: "C07/blind-twin-response-differs".into(),
+                at: with.resp_ops.get(i).copied().unwrap_or(0),
+                detail: format!(
+                    "mutating operation #{i} answered {:?} in the observed run (listing, aggregates and statistics read after every step) and {:?} when no read-only call is made at all",
+                    with.responses.get(i),
+                    resp.get(i)
+                ),
+            });
+        }
+        if let Some(f) = fin {
+            if f != with.final_state {
+                return Some(Violation {
+                    prop: "C07".into(),
+                    sig: "C07/blind-twin-final-state-differs".into(),
+                    at: h.ops.len(),
+                    detail: format!(
+                        "final state of the observed run {} / with no read-only call at all {}",
+                        with.final_state, f
+                    ),
+                });
+            }
+        }
+    }
+    if !h.ops.iter().any(|o| !o.is_mutating()) {
         return None;
     }
     let b = run_history(&strip_reads(h));
